@@ -181,30 +181,51 @@ def safe_show(ip, o):
 
 
 def loop_exhausted(ip, st, which=None):
-    """every iteration entered on this path ran until its iterator was exhausted: for each loop head with a summarised
-    iterator the position variable reached the end (the end variable of a reversed iteration, else the length of an
-    iterated sequence); for an uninterpreted `next` / `pop` (optionally restricted to callee names containing `which`)
-    the last call answered None"""
-    groups = {}
-    lens = []
+    """every loop left on this path (optionally: only the loops whose test calls a function whose name contains `which`)
+    was left because its own test failed - the iterator's `next()` / the stack's `pop()` answered None, the `while`
+    condition became false - and at least one loop was left.  The interpreter records for every loop exit the edge it
+    was taken by (State.loop_exits); the test of a loop is the first switch on the straight-line chain from its head
+    (Fn.loop_test).  This is independent of how the loop is written: `for`, `while let`, `loop { match .. None => break }`,
+    or an iterator consumer lowered by lower.py all leave through that edge when, and only when, they ran out."""
+    n = 0
+    for (path, head, src, dst) in st.loop_exits:
+        fn = ip.crate.fn(path)
+        if fn is None:
+            return False
+        chain, callees, sw = fn.loop_test(head)
+        if which is not None and not any(which in c for c in callees):
+            continue
+        n += 1
+        if sw is None or src != sw:
+            return False
+    return n > 0
+
+
+INT_TYS = ('usize', 'u32', 'u64', 'u8', 'u16', 'i32', 'i64', 'isize')
+
+
+def counters(ip, it, start=None):
+    """head variables of an iteration record (calllog.Iteration) that advance by exactly one per iteration, as
+    (variable, value at loop entry); `start`: only those whose entry value is this term.  Independent of names: the
+    position of a summarised iterator, a user-written index, the counter of a lowered `position`."""
+    out = []
+    for hv, ev in it.mapping:
+        if hv[0] != 'var' or T.TYPES.get(hv) not in INT_TYS:
+            continue
+        cur = it.cur.get(hv, hv)
+        if cur == hv:
+            continue
+        if cur == T.mk_add(hv, I(1)) or ip.entails(it.state, eq(cur, T.mk_add(hv, I(1)))):
+            if start is None or ev == start or (T.is_int(ev) and T.is_int(start) and ev[1] == start[1]):
+                out.append((hv, ev))
+    return out
+
+
+def head_vars(st):
+    """loop-head variables mentioned in the path condition of a state"""
+    out = []
     for f in st.pc:
         for t in T.subterms(f):
-            if t[0] == 'var' and ('iter.pos@' in t[1] or 'iter.end@' in t[1]):
-                head = t[1].split('@', 1)[1].split('#', 1)[0]
-                groups.setdefault(head, {})['pos' if 'iter.pos@' in t[1] else 'end'] = t
-            if t[0] == 'len' and t not in lens:
-                lens.append(t)
-    nexts = [c for c in st.calls if (c[0].endswith('::next') or c[0].endswith('::pop')) and (which is None or which in c[0])]
-    by_next = bool(nexts) and st.variants.get(('call', nexts[-1][0], nexts[-1][1])) == 0
-    for head, g in groups.items():
-        if 'pos' not in g:
-            return False
-        if 'end' in g:
-            done = ip.entails(st, le(g['end'], g['pos']))
-        else:
-            done = any(ip.entails(st, le(T.typed(n, 'usize'), g['pos'])) for n in lens)
-        # an iterator object stepped by an uninterpreted next(): its position variable never moves, the call's answer decides
-        stepped_by_call = any(g['pos'] in list(T.subterms(c[1][0])) for c in nexts if c[1])
-        if not done and not (stepped_by_call and by_next):
-            return False
-    return bool(groups) or by_next
+            if t[0] == 'var' and '@bb' in t[1] and t not in out:
+                out.append(t)
+    return out
